@@ -201,6 +201,7 @@ printload:过程打印函数
 void buffergroup::buffer_update(const std::function<void(std::string, size_t)> &printload)
 {
   loadstate_t loadstate = NODATA;
+  WV_SCHED(2);
   if (ctrl[turn].cmpstate(UPDATING))
   {
     buflst[turn].export_buffer(fout, ispadding);
